@@ -158,23 +158,23 @@ theorem parse_compact (y m d : Nat) (hy : y < 10000) (hm : m < 100) (hd : d < 10
     rcases hc with rfl | rfl | rfl | rfl | rfl | rfl | rfl | rfl <;> exact digit_isDigit _
 
 /-- `yyyy-mm-ddTHH:MM:SS` is read back as its fields -/
-theorem parse_iso (y m d h mi s : Nat) (hy : y < 10000) (hm : m < 100) (hd : d < 100) (hh : h < 100) (hmi : mi < 100) (hs : s < 100) :
+theorem parse_iso (y m d h mi s : Nat) (hy : y < 10000) (hm : m < 100) (hd : d < 100) (hh : h < 24) (hmi : mi < 60) (hs : s < 60) :
     parseCs (pad4 y ++ '-' :: (pad2 m ++ '-' :: (pad2 d ++ 'T' :: (pad2 h ++ ':' :: (pad2 mi ++ ':' :: (pad2 s ++ []))))))
       = some ⟨false, 0, y, m, d, ((h * 3600000000 + mi * 60000000 + s * 1000000 : Nat) : Int), 0⟩ := by
   unfold parseCs
   rw [scan_iso _ (by simp [pad_lengths]) y m d h mi s [] ndh_nil, scan_nil]
-  rw [val_pad4 y hy, val_pad2 m hm, val_pad2 d hd, val_pad2 h hh, val_pad2 mi hmi, val_pad2 s hs]
-  simp [parseTokens, parseTime, mk]
+  rw [val_pad4 y hy, val_pad2 m hm, val_pad2 d hd, val_pad2 h (by omega), val_pad2 mi (by omega), val_pad2 s (by omega)]
+  simp [parseTokens, parseTime, mk, hh, hmi, hs]
 
 /-- `yyyy-mm-ddTHH:MM:SS.ffffff` is read back as its fields -/
-theorem parse_iso_frac (y m d h mi s us : Nat) (hy : y < 10000) (hm : m < 100) (hd : d < 100) (hh : h < 100) (hmi : mi < 100)
-    (hs : s < 100) (hus : us < 1000000) :
+theorem parse_iso_frac (y m d h mi s us : Nat) (hy : y < 10000) (hm : m < 100) (hd : d < 100) (hh : h < 24) (hmi : mi < 60)
+    (hs : s < 60) (hus : us < 1000000) :
     parseCs (pad4 y ++ '-' :: (pad2 m ++ '-' :: (pad2 d ++ 'T' :: (pad2 h ++ ':' :: (pad2 mi ++ ':' :: (pad2 s ++ '.' :: pad6 us))))))
       = some ⟨false, 0, y, m, d, ((h * 3600000000 + mi * 60000000 + s * 1000000 : Nat) : Int), (us : Int)⟩ := by
   unfold parseCs
   rw [scan_iso _ (by simp [pad_lengths]) y m d h mi s _ (ndh_cons _ _ (by decide)), scan_frac _ (by simp [pad_lengths])]
-  rw [val_pad4 y hy, val_pad2 m hm, val_pad2 d hd, val_pad2 h hh, val_pad2 mi hmi, val_pad2 s hs, val_pad6 us hus]
-  simp [parseTokens, parseTime, mk]
+  rw [val_pad4 y hy, val_pad2 m hm, val_pad2 d hd, val_pad2 h (by omega), val_pad2 mi (by omega), val_pad2 s (by omega), val_pad6 us hus]
+  simp [parseTokens, parseTime, mk, hh, hmi, hs]
 
 open Pyg.Greg in
 /-- a non-ambiguous reading of a calendar date: both dialects return date + time of day -/
@@ -212,6 +212,103 @@ theorem parse_numeric3 (a b y : Nat) (s1 s2 : Char) (h1 : isDateSep s1 = true) (
   rw [scan_pad4 _ (by omega) _ _ ndh_nil, scan_nil]
   rw [val_pad2 a ha, val_pad2 b hb, val_pad4 y hy]
   simp [parseTokens, parseTime, mk, h1, h2]
+
+/-! ### `str.strip()` -/
+
+theorem dropWhile_ws_append (ws rest : List Char) (h : ∀ c ∈ ws, isWs c = true) :
+    (ws ++ rest).dropWhile isWs = rest.dropWhile isWs := by
+  induction ws with
+  | nil => rfl
+  | cons c cs ih =>
+    have hc : isWs c = true := h c (by simp)
+    simp only [List.cons_append, List.dropWhile_cons, hc, if_true]
+    exact ih (fun x hx => h x (by simp [hx]))
+
+theorem dropWhile_ws_cons (c : Char) (rest : List Char) (h : isWs c = false) : (c :: rest).dropWhile isWs = c :: rest := by
+  simp [h]
+
+/-- white space around a text that starts and ends with other characters is removed, nothing else -/
+theorem strip_wrapped (ws1 ws2 mid : List Char) (c0 c1 : Char) (h1 : ∀ c ∈ ws1, isWs c = true) (h2 : ∀ c ∈ ws2, isWs c = true)
+    (n0 : isWs c0 = false) (n1 : isWs c1 = false) :
+    strip (ws1 ++ (c0 :: (mid ++ [c1])) ++ ws2) = c0 :: (mid ++ [c1]) := by
+  unfold strip
+  rw [List.append_assoc, dropWhile_ws_append _ _ h1]
+  rw [show (c0 :: (mid ++ [c1])) ++ ws2 = c0 :: (mid ++ [c1] ++ ws2) by simp]
+  rw [dropWhile_ws_cons _ _ n0]
+  have hr : (c0 :: (mid ++ [c1] ++ ws2)).reverse = ws2.reverse ++ (c1 :: (mid.reverse ++ [c0])) := by simp
+  rw [hr, dropWhile_ws_append _ _ (fun c hc => h2 c (by simpa using hc)), dropWhile_ws_cons _ _ n1]
+  simp
+
+theorem strip_id (mid : List Char) (c0 c1 : Char) (n0 : isWs c0 = false) (n1 : isWs c1 = false) :
+    strip (c0 :: (mid ++ [c1])) = c0 :: (mid ++ [c1]) := by
+  have := strip_wrapped [] [] mid c0 c1 (by simp) (by simp) n0 n1
+  simpa using this
+
+theorem ofNat_digit_ws : ∀ k, k < 10 → isWs (Char.ofNat (48 + k)) = false := by decide
+theorem digit_not_ws (n : Nat) : isWs (digit n) = false := ofNat_digit_ws (n % 10) (Nat.mod_lt _ (by omega))
+
+/-- the text `dt2str` writes starts and ends with a digit: `strip` leaves it alone -/
+theorem strip_dt2strCs (t : Int) : strip (dt2strCs t) = dt2strCs t := by
+  unfold dt2strCs
+  simp only []
+  split
+  · have e : ∀ (y m d : Nat), pad4 y ++ pad2 m ++ pad2 d
+        = digit (y / 1000) :: ([digit (y / 100), digit (y / 10), digit y, digit (m / 10), digit m, digit (d / 10)] ++ [digit d]) := by
+      intros; rfl
+    rw [e]; exact strip_id _ _ _ (digit_not_ws _) (digit_not_ws _)
+  · split
+    · have e : ∀ (y m d h mi s : Nat), pad4 y ++ '-' :: pad2 m ++ '-' :: pad2 d ++ 'T' :: pad2 h ++ ':' :: pad2 mi ++ ':' :: pad2 s
+          = digit (y / 1000) :: ([digit (y / 100), digit (y / 10), digit y, '-', digit (m / 10), digit m, '-', digit (d / 10), digit d, 'T',
+              digit (h / 10), digit h, ':', digit (mi / 10), digit mi, ':', digit (s / 10)] ++ [digit s]) := by
+        intros; rfl
+      rw [e]; exact strip_id _ _ _ (digit_not_ws _) (digit_not_ws _)
+    · have e : ∀ (y m d h mi s us : Nat), pad4 y ++ '-' :: pad2 m ++ '-' :: pad2 d ++ 'T' :: pad2 h ++ ':' :: pad2 mi ++ ':' :: pad2 s ++ '.' :: pad6 us
+          = digit (y / 1000) :: ([digit (y / 100), digit (y / 10), digit y, '-', digit (m / 10), digit m, '-', digit (d / 10), digit d, 'T',
+              digit (h / 10), digit h, ':', digit (mi / 10), digit mi, ':', digit (s / 10), digit s, '.', digit (us / 100000),
+              digit (us / 10000), digit (us / 1000), digit (us / 100), digit (us / 10)] ++ [digit us]) := by
+        intros; rfl
+      rw [e]; exact strip_id _ _ _ (digit_not_ws _) (digit_not_ws _)
+
+/-! ### blanks around the separators (`squeeze`) -/
+
+theorem squeezeGo_noblank (after : Bool) (cs : List Char) (h : ∀ c ∈ cs, c ≠ ' ') : squeezeGo after false cs = cs := by
+  induction cs generalizing after with
+  | nil => rfl
+  | cons c r ih =>
+    have hc : c ≠ ' ' := h c (by simp)
+    simp only [squeezeGo, hc, if_false, Bool.false_and, Bool.false_eq_true]
+    rw [ih _ (fun x hx => h x (by simp [hx]))]
+
+theorem ofNat_digit_ne_blank : ∀ k, k < 10 → Char.ofNat (48 + k) ≠ ' ' := by decide
+theorem digit_ne_blank (n : Nat) : digit n ≠ ' ' := ofNat_digit_ne_blank (n % 10) (Nat.mod_lt _ (by omega))
+
+/-- the text `dt2str` writes has no blank: `squeeze` leaves it alone -/
+theorem squeeze_dt2strCs (t : Int) : squeeze (dt2strCs t) = dt2strCs t := by
+  apply squeezeGo_noblank
+  intro c hc
+  unfold dt2strCs at hc
+  simp only [] at hc
+  have hd : ∀ n, digit n ≠ ' ' := digit_ne_blank
+  split at hc
+  · simp only [pad4, pad2, List.mem_append, List.mem_cons, List.not_mem_nil, or_false] at hc
+    rcases hc with (((h | h | h | h) | (h | h)) | (h | h)) <;> rw [h] <;> first | exact hd _ | decide
+  · split at hc
+    · simp only [pad4, pad2, List.mem_append, List.mem_cons, List.not_mem_nil, or_false, List.cons_append, List.nil_append] at hc
+      rcases hc with h | h | h | h | h | h | h | h | h | h | h | h | h | h | h | h | h | h | h <;> rw [h] <;> first | exact hd _ | decide
+    · simp only [pad4, pad2, pad6, List.mem_append, List.mem_cons, List.not_mem_nil, or_false, List.cons_append, List.nil_append] at hc
+      rcases hc with h | h | h | h | h | h | h | h | h | h | h | h | h | h | h | h | h | h | h | h | h | h | h | h | h | h <;>
+        rw [h] <;> first | exact hd _ | decide
+
+theorem ofNat_digit_ne_seps : ∀ k, k < 10 → Char.ofNat (48 + k) ≠ '/' ∧ Char.ofNat (48 + k) ≠ '-' := by decide
+theorem digit_ne_slash (n : Nat) : digit n ≠ '/' := (ofNat_digit_ne_seps (n % 10) (Nat.mod_lt _ (by omega))).1
+theorem digit_ne_dash (n : Nat) : digit n ≠ '-' := (ofNat_digit_ne_seps (n % 10) (Nat.mod_lt _ (by omega))).2
+
+/-- the tight padded text `aa<sep>bb<sep>yyyy` (any of the four separators, also the blank) is left alone by `squeeze` -/
+theorem squeeze_padded (a b y : Nat) (s1 s2 : Char) (h1 : isDateSep s1 = true) (h2 : isDateSep s2 = true) :
+    squeeze (pad2 a ++ s1 :: (pad2 b ++ s2 :: (pad4 y ++ []))) = pad2 a ++ s1 :: (pad2 b ++ s2 :: (pad4 y ++ [])) := by
+  have b0 := digit_ne_blank; have b1 := digit_ne_slash; have b2 := digit_ne_dash
+  rcases sep_cases s1 h1 with rfl | rfl | rfl | rfl <;> rcases sep_cases s2 h2 with rfl | rfl | rfl | rfl <;>
+    simp [squeeze, squeezeGo, pad2, pad4, b0, b1, b2]
 
 theorem mkDateChecked_cases (y m d : Int) : (∃ t, mkDateChecked y m d = .ok t) ∨ mkDateChecked y m d = .error .value := by
   unfold mkDateChecked; split
